@@ -298,6 +298,32 @@ def requests(seed=1, size="quick"):
             for st in ("RAM", "DISK", "WORK", "NONE"):
                 out.append(("twoLevelInit %d %d %s revolve" % (p, b, st), lambda p=p, b=b, st=st: tinit(p, b, st, "revolve")))
 
+    def rinit(kind, n, ram, disk, uf, ub, wd, rd):
+        try:
+            with contextlib.redirect_stdout(io.StringIO()):
+                if kind == "H":
+                    o = cs.HRevolve(n, ram, disk, uf=uf, ub=ub, wd=wd, rd=rd)
+                else:
+                    o = {"D": cs.DiskRevolve, "P": cs.PeriodicDiskRevolve, "R": cs.Revolve}[kind](n, ram, uf=uf, ub=ub, wd=wd, rd=rd)
+            ops2 = []
+            for op in o._schedule:
+                ix = op.index
+                ops2.append("%s:%d:%d" % (op.type, ix[0], ix[1]) if isinstance(ix, (list, tuple)) else "%s:%d" % (op.type, ix))
+            return "%d %d %s %s %s %d %s" % (o._n, o._r, opt(o._max_n), "1" if o._exhausted else "0",
+                                             opt(o._snapshots_on_disk), o._snapshots_in_ram, ",".join(ops2))
+        except Exception as e:   # noqa: BLE001
+            return "raise:" + type(e).__name__
+    for kind in "HDPR":
+        for n in (-1, 0, 1, 2, 3, 5, 9, 16):
+            for ram in (-1, 0, 1, 2, 4):
+                if kind == "P" and ram < 0:
+                    continue    # PeriodicDiskRevolve(n, -1) does not terminate (the period search of mxrr_close_formula)
+                for disk in ((0, 1, 3) if kind == "H" else (0,)):
+                    for (uf, ub, wd, rd) in ((1, 1, 2, 2), (1, 1, 0.25, 0.25), (3, 1, 0.5, 1), (1, 2, 7, 5)):
+                        out.append(("revInit %s %d %d %d %s %s %s %s" % (kind, n, ram, disk, fr(uf), fr(ub), fr(wd), fr(rd)),
+                                    lambda kind=kind, n=n, ram=ram, disk=disk, uf=uf, ub=ub, wd=wd, rd=rd:
+                                    rinit(kind, n, ram, disk, uf, ub, wd, rd)))
+
     def msinit(n, ram, disk, tr):
         try:
             o = cs.MultistageCheckpointSchedule(n, ram, disk, trajectory=tr)
